@@ -55,6 +55,9 @@ type pair struct {
 	// the login's Set Compression does); 0 = no switch
 	switchAt   int
 	threshold2 int
+	// nullCipher: both ends install an identity cipher AFTER setting the
+	// threshold (the threshold must survive it); only Conn paths are used then
+	nullCipher bool
 	link       *simnet.Link
 	got        []pk.Packet // retained values (fresh mode)
 	big        bool
@@ -110,6 +113,13 @@ func drawPair(tp *tape.Tape, name string, tag int, maxPkts int) *pair {
 	}
 	p.recvMode = tp.Choose(3)
 	p.recvSalt = tp.Choose(30)
+	if tp.Bool(1, 5) {
+		p.nullCipher = true
+		pNullCipher.Hit()
+		for j := range p.viaConn {
+			p.viaConn[j] = true
+		}
+	}
 	if len(p.pkts) >= 2 && tp.Bool(1, 4) {
 		p.switchAt = 1 + tp.Choose(len(p.pkts)-1)
 		p.threshold2 = gen.Threshold(tp, false)
@@ -149,6 +159,9 @@ func scenarioStream(c *harness.Ctx) {
 			w.Go("send-"+p.name, func() {
 				conn := mcnet.WrapConn(p.link.A)
 				conn.SetThreshold(p.threshold)
+				if p.nullCipher {
+					conn.SetCipher(nullStream{}, nullStream{})
+				}
 				for j, s := range p.pkts {
 					th := p.threshold
 					if p.switchAt > 0 && j >= p.switchAt {
@@ -176,6 +189,9 @@ func scenarioStream(c *harness.Ctx) {
 			w.Go("recv-"+p.name, func() {
 				conn := mcnet.WrapConn(p.link.B)
 				conn.SetThreshold(p.threshold)
+				if p.nullCipher {
+					conn.SetCipher(nullStream{}, nullStream{})
+				}
 				var reused pk.Packet
 				prevLen := -1
 				for j, s := range p.pkts {
@@ -211,7 +227,7 @@ func scenarioStream(c *harness.Ctx) {
 						}
 					}
 					var err error
-					if j%2 == 0 {
+					if j%2 == 0 || p.nullCipher {
 						err = conn.ReadPacket(q)
 					} else {
 						err = q.UnPack(p.link.B, th)
@@ -327,7 +343,17 @@ func scenarioForged(c *harness.Ctx) {
 	case 0: // negative
 		pForgedNeg.Hit()
 		neg := []int32{-1, -2, -128, -0x80000000, -70000}[tp.Choose(5)]
-		if !compression {
+		if !compression && tp.Bool(1, 2) {
+			// total length positive but smaller than the id's own encoding: the
+			// declared payload size (length - len(id)) is negative
+			longID := []int32{128, 16384, 1 << 21, 1 << 28, -1}[tp.Choose(5)]
+			idb := frame.PutVarint(nil, longID)
+			l := 1 + tp.Choose(len(idb)-1)
+			forged = frame.PutVarint(nil, int32(l))
+			forged = append(forged, idb...)
+			forged = append(forged, bytes.Repeat([]byte{0}, 64)...)
+			desc = fmt.Sprintf("uncompressed total length %d with a %d-byte id (payload size %d)", l, len(idb), l-len(idb))
+		} else if !compression {
 			forged = frame.PutVarint(nil, neg)
 			forged = append(forged, bytes.Repeat([]byte{0}, 64)...)
 			desc = fmt.Sprintf("uncompressed total length %d", neg)
@@ -448,3 +474,10 @@ func varintLen(b []byte) (int32, int, error) {
 }
 
 var pThresholdSwitch = simrt.NewProbe("stream.threshold.changed.mid-connection(both.ends)")
+
+// nullStream is the identity cipher: the wire stays readable by the frame oracle.
+type nullStream struct{}
+
+func (nullStream) XORKeyStream(dst, src []byte) { copy(dst, src) }
+
+var pNullCipher = simrt.NewProbe("stream.identity.cipher.installed.after.SetThreshold")
